@@ -3216,7 +3216,7 @@ broadcast use {flat_lemmas::group_flat, flat_lemmas::group_seq, ts_axioms::axiom
         fallible: false,
     }} )).chain(attrs.iter_for_kind_core(&Kind::RefInto, true).map(    |struct_attr: &TraitAttrCore| -> (r: ImplContext) ensures r == mk_ctx(&input, struct_attr, Kind::RefInto, true, &ty)  {ImplContext {
         input: &input, impl_type, struct_attr,
-        kind: Kind::RefInto,
+        kind: Kind::OwnedInto,
         dst_ty: &struct_attr.ty.path,
         src_ty: &ty,
         has_post_init: false,
